@@ -21,6 +21,7 @@ type Cfg struct {
 	Module      int // 0 tape; -1 TEE_TCB_SVN[1]=0; 1..9 module version
 	PermuteExt  bool
 	SpreadTimes bool // five verification instants pairwise distinct, anywhere inside all windows
+	NetLat      int  // 0 tape; -1 instant network; n>0 latency profile n
 	AKI         int  // 0 tape; -1 key identifier (usual); 1..3 see CertSpec.AKI
 	NoPCS       bool // skip collateral generation (faster) when only the base level is used
 }
@@ -69,10 +70,11 @@ type World struct {
 	SerialCoincidence bool
 	// Coincide: 0 all quote fields independent; 1 owner/config identifiers and RTMR2/3 zero; 2 equal-sized
 	// neighbouring fields equal; 3 one pair of 48-byte TD fields equal
-	Coincide          int
-	HdrEsc            int // which of the equivalent URL encodings the PCS uses for issuer-chain headers
-	AKI               int // CertSpec.AKI form used by every non-root certificate of PKI A
-	LevelIdx          int // index of the TCB level the platform matches (honest: UpToDate)
+	Coincide    int
+	NetLat      int // 0: fetches are instant; n>0: PCS latency profile n (see LatencyProfile)
+	HdrEsc      int // which of the equivalent URL encodings the PCS uses for issuer-chain headers
+	AKI         int // CertSpec.AKI form used by every non-root certificate of PKI A
+	LevelIdx    int // index of the TCB level the platform matches (honest: UpToDate)
 	ModLevelIdx int // index of the matching module level, -1 when the module branch is off
 }
 
@@ -241,6 +243,12 @@ func NewWorld(r Rand, cfg Cfg) *World {
 	// ---- collateral contents
 	if !cfg.NoPCS {
 		w.HdrEsc = []int{0, 0, 1, 2}[r.Draw(4)]
+		// a third of the worlds have a network in which every fetch takes (simulated) time
+		if cfg.NetLat > 0 {
+			w.NetLat = cfg.NetLat
+		} else if cfg.NetLat == 0 && r.Chance(1, 3) {
+			w.NetLat = 1 + r.Draw(7)
+		}
 		w.genCollateral(r)
 	}
 	// ---- times
@@ -480,6 +488,9 @@ func (w *World) Build(trailingNul bool) {
 // Publish (re)creates the simulated PCS from the documents and CRL specs.
 func (w *World) Publish() {
 	s := NewPCS()
+	if w.NetLat > 0 {
+		s.Latency = LatencyProfile(w.NetLat)
+	}
 	s.Tcb[strings.ToLower(hex.EncodeToString(w.P.Ext.FMSPC[:]))] = &Endpoint{
 		Hdr:  map[string][]string{HdrTcbInfo: {IssuerChainHeaderEsc(w.HdrEsc, w.TcbSignerInTcb, w.RootInTcb)}},
 		Body: SignedBody("tcbInfo", w.Tcb.JSON(), w.TcbSignerInTcb.Key)}
@@ -524,5 +535,5 @@ func (w *World) Describe() string {
 	if w.Tcb != nil {
 		nl = len(w.Tcb.Levels)
 	}
-	return fmt.Sprintf("epoch=%s ca=%s auth=%d extra=%d chain=%d levels=%d match=%d module=%s coincide=%d aki=%d", w.Epoch.Format("2006-01-02"), w.CAID, len(w.Quote.Auth), len(w.Quote.Extra), len(w.Quote.Chain), nl, w.LevelIdx, mod, w.Coincide, w.AKI)
+	return fmt.Sprintf("epoch=%s ca=%s auth=%d extra=%d chain=%d levels=%d match=%d module=%s coincide=%d aki=%d netlat=%d", w.Epoch.Format("2006-01-02"), w.CAID, len(w.Quote.Auth), len(w.Quote.Extra), len(w.Quote.Chain), nl, w.LevelIdx, mod, w.Coincide, w.AKI, w.NetLat)
 }
